@@ -311,6 +311,7 @@ func buildFrag(fs *Frag) *fragRun {
 					ss[j] = toSample(op.Ss[j])
 				}
 				f.AddSamples(ss, op.Dts)
+				scribble(ss) // the caller re-uses its batch buffer: the fragment must not depend on it any more
 				r.modes['l'] = true
 			case "I":
 				ss := make([]mp4.Sample, len(op.Ss))
@@ -318,6 +319,7 @@ func buildFrag(fs *Frag) *fragRun {
 					ss[j] = toSample(op.Ss[j])
 				}
 				err = f.AddSampleInterval(mp4.SampleInterval{FirstDecodeTime: op.Dts, Samples: ss, Data: data})
+				scribble(ss)
 				r.modes['p'] = true
 			case "E":
 				e := mkBox(400000 + int(op.Tr)%100000).(*mp4.EmsgBox)
@@ -2542,5 +2544,13 @@ func main() {
 	default:
 		fmt.Fprintln(os.Stderr, "unknown sub-command")
 		os.Exit(2)
+	}
+}
+
+// scribble overwrites a sample-metadata batch after it has been handed to the library (callers re-use batch buffers
+// across fragments): what was added must not change with it.
+func scribble(ss []mp4.Sample) {
+	for i := range ss {
+		ss[i] = mp4.Sample{Flags: 0xdeadbeef, Dur: 0x7fffffff, Size: 0x7ffffff, CompositionTimeOffset: -12345}
 	}
 }
